@@ -281,7 +281,9 @@ class Search(abc.ABC):
                 # atomically replaces the results: rewriting the results in place would truncate
                 # them first and an interruption at this moment would lose all the evaluations.
                 df_path_tmp = df_path + ".tmp"
-                df.to_csv(df_path_tmp, index=False)
+                # same line terminator as the rows appended by the evaluator (``csv`` module): a
+                # value containing a carriage return is then quoted instead of splitting its row
+                df.to_csv(df_path_tmp, index=False, lineterminator="\r\n")
                 os.replace(df_path_tmp, df_path)
 
     def _search(self, max_evals, timeout, max_evals_strict=False):
